@@ -125,7 +125,11 @@ package gohlslib
 // nextSegment / nextPart are published by happens-before (written by the single writer before the first
 // locked rotation makes them reachable for readers): A-HB, not part of the guarded set
 //@ struct muxerStream guarded_by self.mutex class muxer: closed, segments, nextSegmentID, nextPartID, segmentDeleteCount, targetDuration, partTargetDuration, initFilePresent
-//@ struct muxerSegmentFMP4 guarded_by * class muxer: parts
+//@ struct muxerSegmentFMP4 guarded_by * class muxer: parts, endDTS
+// fields written after construction that are deliberately not guarded: set on the still unpublished object
+// (path, storage), private to the single writer (size), or published by happens-before (nextSegment, nextPart: A-HB)
+//@ struct muxerSegmentFMP4 private: path, storage, size
+//@ struct muxerStream private: nextSegment, nextPart
 //@ struct muxerServer guarded_by &self.mutex class server: pathHandlers[]
 //@ cond Muxer.cond class muxer waits_on: Muxer.closed, muxerStream.closed, muxerStream.segments, muxerStream.nextSegmentID, muxerStream.nextPartID, muxerSegmentFMP4.parts
 
@@ -423,6 +427,7 @@ package gohlslib
 // EXT-X-TARGETDURATION candidate: at least every listed EXTINF rounded to the nearest integer
 //@ func targetDuration
 //@   props C03
+//@   requires anylock()
 //@   requires segsOK(segments)
 //@   ensures result >= 0
 //@   ensures forall(j, (0 <= j && j < len(segments)) ==> result >= round(real(segments[j].getDuration()) / 1000000000.0))
@@ -477,6 +482,7 @@ package gohlslib
 
 //@ func muxerSegmentFMP4.finalize
 //@   props C03 C04
+//@   requires anylock()
 //@   role writer
 //@   requires storage.fileOpen(s.storage)
 //@   modifies s.endDTS
@@ -918,9 +924,14 @@ package gohlslib
 //@   loop 1 invariant ri < len(tracks)
 //@ end
 
+// 64-bit arithmetic is checked here (arith nooverflow) for timestamps up to 2^62 ticks: the rescaling of the
+// origin must go through multiplyAndDivide, a plain product base*rate overflows for wall-clock-anchored streams
 //@ func clientTimeConvFMP4.convert
 //@   props C09 C10 C13
-//@   requires clockRate >= 0 && ts.leadingTimeScale > 0
+//@   arith nooverflow
+//@   requires clockRate >= 0 && clockRate <= 1000000000 && ts.leadingTimeScale > 0 && ts.leadingTimeScale <= 1000000000
+//@   requires 0 <= ts.leadingBaseTime && ts.leadingBaseTime < 4611686018427387904 && -4611686018427387904 < v && v < 4611686018427387904
+//@   requires (ts.leadingBaseTime * clockRate) / ts.leadingTimeScale < 4611686018427387904
 //@   ensures result == v - (ts.leadingBaseTime * clockRate) / ts.leadingTimeScale
 //@ end
 
@@ -1324,6 +1335,7 @@ package gohlslib
 
 //@ func muxerStream.initialize
 //@   props C16
+//@   role init
 //@   requires nolocks() && s.server.pathHandlers != nil && &s.server.mutex != s.mutex
 //@   requires s.server != nil && forall(i, (0 <= i && i < len(s.tracks)) ==> s.tracks[i] != nil)
 //@   modifies muxerTrack.stream, s.generateMediaPlaylist, s.mpegtsSwitchableWriter, s.mpegtsWriter, s.server.pathHandlers[*]
@@ -1346,6 +1358,7 @@ package gohlslib
 
 //@ func Muxer.Start
 //@   props C16
+//@   role init
 //@   modifies *m, muxerTrack.stream
 //@   requires nolocks()
 //@   requires len(m.streams) == 0 && len(m.mtracks) == 0
@@ -1388,6 +1401,7 @@ package gohlslib
 // panic on listed segments of zero duration); peak >= mean; both are 0 only when nothing can be measured.
 //@ func bandwidth
 //@   props C16
+//@   requires anylock()
 //@   arith math
 //@   requires forall(i, (0 <= i && i < len(segments)) ==> segments[i] != nil)
 //@   requires forall(i, (0 <= i && i < len(segments) && isF(segments[i])) ==> asF(segments[i]).storage != nil)
@@ -1702,4 +1716,11 @@ package gohlslib
 //@   props C13
 //@   nosafety
 //@   noframe
+//@ end
+
+//@ func muxerServer.initialize
+//@   props C08
+//@   role init
+//@   modifies s.pathHandlers
+//@   ensures s.pathHandlers != nil && fresh(s.pathHandlers)
 //@ end
